@@ -1,4 +1,5 @@
 import Rie.Proofs.Sys
+import Rie.Proofs.SysEvents
 
 /-!
 # C15 — Platform lifecycle events form a well-nested, truthful trace
@@ -31,27 +32,31 @@ theorem foldl_emit_out (l : List Agent) (f : Agent → String) (s : State) :
     init-report — all tagged with the phase (`init` or `invoke`) the init ran in. -/
 theorem C15_init_tail (s : State) (ph : Phase) (status : String) :
     (initTailEvents s ph status).outs =
-      s.outs ++ (if s.rtDoneReg then [s!"ev initRuntimeDone:{ph.str}:{status}:{if status == "success" then "-" else s.fatal.getD "Runtime.Unknown"}"] else [])
+      s.outs ++ (if s.rtDoneReg then [Out.str (.ev .initRuntimeDone s!"{ph.str}:{status}:{if status == "success" then "-" else s.fatal.getD "Runtime.Unknown"}")] else [])
             ++ ((s.agents.filter (·.ext)) ++ (s.agents.filter (!·.ext))).map agentInfoLine
-            ++ [s!"ev initReport:{ph.str}"] := by
+            ++ [Out.str (.ev .initReport ph.str)] := by
   unfold initTailEvents
   by_cases h : s.rtDoneReg = true
-  · simp only [h, ↓reduceIte, emit_outs, foldl_emit_out, emit_agents, List.append_assoc]
-  · simp only [h, Bool.false_eq_true, ↓reduceIte, emit_outs, foldl_emit_out, List.append_nil, List.append_assoc]
+  · simp only [h, ↓reduceIte, emitEv_outs, foldl_emit_out, emitEv_agents, List.append_assoc]
+  · simp only [h, Bool.false_eq_true, ↓reduceIte, emitEv_outs, foldl_emit_out, List.append_nil, List.append_assoc]
+
+-- how the counted events are printed
+example : Out.str (.ev .initReport "init") = "ev initReport:init" ∧ Out.str (.ev .initStart "invoke") = "ev initStart:invoke" ∧
+    Out.str (.ev .initRuntimeDone "init:success:-") = "ev initRuntimeDone:init:success:-" := by decide
 
 /-- an init starts with exactly one init-start carrying the phase -/
 theorem C15_init_start (s : State) (ph : Phase) :
-    ∃ s1 : State, s1.outs = s.outs ++ [s!"ev initStart:{ph.str}"] ∧
+    ∃ s1 : State, s1.outs = s.outs ++ [Out.str (.ev .initStart ph.str)] ∧
       (startInit s ph = initFinish { s1 with gen := s.gen + 1, rtDoneReg := false } ph false "success" none ∨
        ∃ s2 : State, s2.outs = s1.outs ∧ startInit s ph = launchExtensions s2 ph s.extFiles) := by
-  refine ⟨s.emit s!"ev initStart:{ph.str}", emit_outs _ _, ?_⟩
+  refine ⟨s.emitEv .initStart ph.str, emitEv_outs _ _ _, ?_⟩
   unfold startInit
   by_cases hc : (s.initFlow.extRegistered.setCount s.extFiles.length).2 = true
   · right
-    refine ⟨_, ?_, by simp [hc, State.emit]; rfl⟩
+    refine ⟨_, ?_, by simp [hc, State.emitEv]; rfl⟩
     rfl
   · left
-    simp [hc, State.emit]
+    simp [hc, State.emitEv]
 
 /-- **Truthful init status.** The init-runtime-done of a successful init says `success`; it is
     emitted from `iAwaitAgentsReady` only with the agents-ready gate open and not cancelled, which
@@ -80,5 +85,37 @@ example :
     s.outs = ["ev initRuntimeDone:init:success:-", "ev extensionInit:a:Ready:INVOKE+SHUTDOWN:-", "ev initReport:init",
              "ev invokeStart:id#1", "rt.next=200,id#1,body=h,arn=ok,ctx=ctx0", "a.next=200,INVOKE,id#1,arn=ok,trace"] := by
   decide
+
+
+/-- **One init-report per initialisation, at most one init-runtime-done — whole runs.** The three init
+    events are their own constructor of the model's output (`Out.ev`), so counting involves no text.
+    `runE` is `run` carrying the numbers of init-start, init-report and init-runtime-done events printed
+    by all earlier ops (`runE_state`: same states as `run`). From any initial state without output and
+    with the orchestrator idle, after ANY sequence of ops — API calls in any order, exits, launch
+    failures, invocations, timeouts, resets, shutdowns, restores, every timer firing — under any
+    scheduler choices:
+    * init-starts = init-reports + 1 while an initialisation is in progress (the orchestrator is at one
+      of its three init waits), and init-starts = init-reports otherwise: every initialisation that has
+      ended emitted exactly one report, whatever ended it;
+    * init-runtime-done events never outnumber the reports (at most one per initialisation, and never
+      after its report: `C15_init_tail` gives the order inside one tail).
+    Invariant `Rie.Sys.EInv`, `Rie/Proofs/SysEvents.lean`. -/
+theorem C15_one_report_per_init (s0 : State) (hout : s0.out = []) (hidle : s0.orch = .idle) (ops : List (Nat × Op)) :
+    let r := runE s0 (0, 0, 0) ops
+    r.1 = (run s0 [] ops).1 ∧
+    r.2.1 + evk r.1.out .initStart = r.2.2.1 + evk r.1.out .initReport + (if inInit r.1.orch then 1 else 0) ∧
+    r.2.2.2 + evk r.1.out .initRuntimeDone ≤ r.2.2.1 + evk r.1.out .initReport := by
+  have i0 : EInv (0, 0, 0) s0 := ⟨by simp [hout, hidle, inInit], by simp [hout]⟩
+  have i := einv_runE s0 ops i0
+  exact ⟨runE_state s0 _ [] ops, i.bal, i.rtd⟩
+
+-- non-vacuity: an init that fails (the extension dies before registering) and the inline init of the next
+-- invocation: two starts, two reports, no runtime-done for the first (the runtime was never started)
+example :
+    let s0 : State := { extFiles := ["a"] }
+    let r := runE s0 (0, 0, 0) [(0, .invoke 0 1 "h"), (0, .exit "a" "code1" false), (0, .timer (.resetTail 2)), (0, .invoke 1 1 "h"),
+                                (0, .register "a" [.invoke] ""), (0, .agNext "a" ""), (0, .rtNext)]
+    r.2.1 + evk r.1.out .initStart = 3 ∧ r.2.2.1 + evk r.1.out .initReport = 3 ∧
+    r.2.2.2 + evk r.1.out .initRuntimeDone = 1 ∧ inInit r.1.orch = false := by decide +kernel
 
 end Rie.Props.C15
